@@ -48,7 +48,11 @@ def codec(name):
 # A bare QuasiDistribution is a dict for json.dumps: default() is never asked, it is written as a plain object and comes
 # back as a plain dict with string keys (observation reported to the lead; the property speaks of the eigenstate *of a
 # result*, which goes through self.default and round-trips).  Correspondence only.
-UNCLAIMED = {("result", "Gate"), ("result", "EVQECircuitLayer"), ("result", "bare QuasiDistribution")}
+# "aux outside documented type": aux_operators_evaluated holding a QuasiDistribution (isinstance(…, dict) is True for the
+# dict subclass: written as {"type": "dict", …}, comes back as a plain dict), a tuple (neither list nor dict: null) or a
+# nested list - outside the property (documented: list / dict of numbers / None); compared with the model only.
+UNCLAIMED = {("result", "Gate"), ("result", "EVQECircuitLayer"), ("result", "bare QuasiDistribution"),
+             ("result", "aux outside documented type")}
 GENERATORS = [
     # (label, codecs, generator, weight)
     ("Machine", ["jssp"], jk.gen_machine, 1),
@@ -65,6 +69,7 @@ GENERATORS = [
     ("complex", ["result"], lambda rng: {"c": [float(rng.choice(jk.FLOATS)), float(rng.choice(jk.FLOATS))]}, 1),
     ("QuantumCircuit", ["result"], lambda rng: {"qc": f"QPY{rng.randrange(4)}"}, 1),
     ("bare QuasiDistribution", ["result"], jk.gen_quasi, 1),
+    ("aux outside documented type", ["result"], jk.gen_result_odd_aux, 2),
 ]
 
 
@@ -515,6 +520,19 @@ def run(ctx):
             glits.append(g)
             kept.append(c)
         raw = c.pop("_raw", None)
+        if raw is not None and c.get("label") == "aux outside documented type" and isinstance(raw, dict):
+            # the decoder's side: the value under the aux key decodes to a QuasiDistribution (a dict for isinstance, without
+            # a "type" key: KeyError), to a list (None) or to an unrecognised dict
+            for sub in ({"quasidistribution_data": [[0, 0.5], [3, 0.5]], "quasidistribution_shots": 8, "quasidistribution_stdev_bound": None},
+                        [1.0, 2.0], {"type": "tuple", "values": [1.0]}, {"values": [1.0]}):
+                t = dict(raw)
+                t["evolving_ansatz_result_aux_operators_evaluated"] = sub
+                dc = dict(kind="decode", codec="result", tree=t, mode="aux-outside-type")
+                g2 = decode_only(ctx, dc)
+                ctx.evaluations += 1
+                if g2 is not None:
+                    glits.append(g2)
+                    kept.append(dc)
         if raw is not None and c["kind"] == "round":
             for _ in range(n_damage):
                 t, mode = damage(ctx.rng, raw)
@@ -546,7 +564,7 @@ def run(ctx):
     # every generated object of a class the theorems speak about must satisfy their hypotheses (typed view exists,
     # embeds back to the very object, constructors' checks and key distinctness hold): the theorems are about what the
     # public constructors build, not about a convenient subset
-    NOT_IN_THEOREMS = {"complex", "QuantumCircuit", "bare QuasiDistribution"}
+    NOT_IN_THEOREMS = {"complex", "QuantumCircuit", "bare QuasiDistribution", "aux outside documented type"}
     should = [i for i, c in enumerate(kept) if c["kind"] in ("round", "solver") and c.get("label") not in NOT_IN_THEOREMS
               and (c.get("codec", "result"), c.get("label")) not in UNCLAIMED]
     missing = [i for i in should if i not in covered]
